@@ -48,7 +48,7 @@ def cmd_setup(args):
     rc = 0
     try:
         for pk in sorted(os.listdir(vlib.HARNESS)):
-            if pk in vlib.PKGDIRS and any(f.endswith(".go") for f in os.listdir(os.path.join(vlib.HARNESS, pk))):
+            if os.path.exists(os.path.join(vlib.HARNESS, pk, "PKG")):
                 vlib.go_build(ctx, pk)
     except vlib.NoVerdict as e:
         print("setup failed:", e)
